@@ -90,9 +90,9 @@ PURE_FUNCS.update({'np.floor': _math.floor, 'numpy.floor': _math.floor, 'math.fl
 try:
     import numpy as _np
     PURE_FUNCS.update({f'{m_}.{n_}': getattr(_np, n_) for m_ in ('np', 'numpy') for n_ in ('zeros', 'ones', 'empty', 'vstack', 'hstack', 'argmax', 'argmin', 'arange', 'array', 'asarray', 'sort', 'argsort',
-                                                                                            'flatnonzero', 'nonzero', 'where', 'sum', 'max', 'min', 'amax', 'amin', 'cumsum', 'unique', 'stack', 'concatenate',
+                                                                                            'flatnonzero', 'nonzero', 'where', 'sum', 'max', 'min', 'fromiter', 'clip', 'searchsorted', 'amax', 'amin', 'cumsum', 'unique', 'stack', 'concatenate',
                                                                                             'count_nonzero', 'take_along_axis', 'expand_dims', 'partition', 'equal', 'logical_and', 'logical_not', 'logical_or')})
-    STD_CONSTS.update({'np.newaxis': None, 'numpy.newaxis': None, 'np.int64': _np.int64, 'np.float64': _np.float64, 'np.nan': float('nan'), 'np.inf': float('inf')})
+    STD_CONSTS.update({'np.uint64': _np.uint64, 'np.int32': _np.int32, 'np.newaxis': None, 'numpy.newaxis': None, 'np.int64': _np.int64, 'np.float64': _np.float64, 'np.nan': float('nan'), 'np.inf': float('inf')})
     NDARRAY = _np.ndarray
 except Exception:          # pragma: no cover
     _np = None
@@ -145,6 +145,7 @@ class LocalClass:
     def __init__(self, cdef, scope, bases=()):
         self.cdef, self.scope, self.bases = cdef, scope, tuple(bases)
         self.consts = {}
+        self.memo = {}          # method name -> {key: value} for methods under functools.lru_cache / cache (one cache per function, shared by all instances)
 
     def method(self, name):
         for st in self.cdef.body:
@@ -472,6 +473,13 @@ class Evaluator:
             if e.func.attr == '__init__':
                 return None
             raise Unfoldable(f'super().{e.func.attr}')
+        if isinstance(e.func, ast.Attribute) and e.func.attr == 'cache_clear' and isinstance(e.func.value, ast.Attribute) and isinstance(e.func.value.value, ast.Name) \
+                and isinstance(env.get(e.func.value.value.id), Instance):
+            inst = env[e.func.value.value.id]
+            m = inst.cls.method(e.func.value.attr)
+            if m is not None:
+                m[1].memo.pop(e.func.value.attr, None)
+                return None
         if isinstance(e.func, ast.Attribute) and isinstance(e.func.value, ast.Name) and isinstance(env.get(e.func.value.id), Instance):
             inst = env[e.func.value.id]
             m = inst.cls.method(e.func.attr)
@@ -480,6 +488,20 @@ class Evaluator:
                 static = any((dotted(x) or '') == 'staticmethod' for x in m[0].decorator_list)
                 sc = dict(m[1].scope)
                 sc['__class__'] = m[1]
+                memoised = any((dotted(x.func if isinstance(x, ast.Call) else x) or '').split('.')[-1] in ('lru_cache', 'cache') for x in m[0].decorator_list)
+                if memoised:
+                    try:
+                        key = (id(inst), tuple(args), tuple(sorted(kwargs.items())))
+                        hash(key)
+                    except TypeError:
+                        key = None
+                    if key is not None:
+                        table = m[1].memo.setdefault(e.func.attr, {})
+                        if key in table:
+                            return table[key]
+                        r = run_function(m[0], ([] if static else [inst]) + args, kwargs, env=sc, budget=max(0, self.budget), call_hook=self.call_hook)
+                        table[key] = r
+                        return r
                 return run_function(m[0], ([] if static else [inst]) + args, kwargs, env=sc, budget=max(0, self.budget), call_hook=self.call_hook)
             if e.func.attr in inst.attrs and isinstance(inst.attrs[e.func.attr], LocalFn):
                 lf = inst.attrs[e.func.attr]
